@@ -103,6 +103,35 @@ def fourier_quad(f, n):
         return quad(f, 0, 2 * math.pi, limit=400, epsabs=0, epsrel=1e-9)[0] / (2 * math.pi)
 
 
+def own_rule(th, obs, base, n):
+    """what the documented projection gives: the 10-point Gauss-Legendre rule on [0, 2pi] (quadrature.Hquadrature =
+    quadSciPy10transposed) applied to the observable as a function of phi, evaluated here point by point with scipy's
+    nodes: res = (b-a)/2 * sum(w f(y) trig(n y)) / pi, halved for n = 0"""
+    import numpy as np
+    from scipy.special import p_roots
+    r, w = p_roots(10)
+    y = math.pi * (r + 1)
+    f = np.array([float(getattr(th, obs)(base, vars={'phi': float(yy)})) for yy in y])
+    if n > 0:
+        return float(np.sum(w * f * np.cos(n * y)))
+    if n < 0:
+        return float(np.sum(w * f * np.sin(-n * y)))
+    return float(np.sum(w * f) / 2)
+
+
+def accuracy_key(th, obs, base, n, code, scale, where):
+    """key of a harmonic that misses the Fourier coefficient by more than 1 % of scale: if the code's value IS the
+    documented 10-point rule applied to the observable, the miss is the accuracy of that rule (the recorded finding,
+    prefix quadrature-accuracy/); if not, the projection itself is wrong (a different violation)"""
+    try:
+        own = own_rule(th, obs, base, n)
+    except Exception:
+        own = None
+    if own is not None and abs(code - own) <= 1e-9 * max(scale, abs(own)):
+        return 'quadrature-accuracy/%s/%s/n%d' % (where, obs, n), own
+    return 'fourier/%s/n%d' % (obs, n), own
+
+
 def reference(th, obs, base, n_list, rep=None):
     """(scale, {n: reference}, values) from a 512-point uniform grid, convergence-checked against its 256-point
     sub-grid; refined once to 4096 points; None when there is no converged reference (case skipped)"""
@@ -469,10 +498,13 @@ def oracle_A(rep, rng, quick, intensive=False):
                 if err > worst[0]:
                     worst = (err, dict(theory=thn, observable=p.observable, FTn=n, point=pt_summary(p), code=code, reference=refs[n], scale=scale))
                 if err > ACC:
-                    rep.violation('fourier/%s/n%d' % (p.observable, n),
+                    key, own = accuracy_key(th, p.observable, q, n, code, scale, 'bundled')
+                    rep.violation(key,
                                   '%s: %s harmonic FTn=%d = %r but the Fourier integral of the same observable is %r (scale max|obs| = %r): '
-                                  '%.2g of scale > 1 %%; point %s' % (thn, p.observable, n, code, refs[n], scale, err, pt_summary(p)),
-                                  dict(theory=thn, observable=p.observable, FTn=n, point=pt_summary(p), code=code, reference=refs[n], scale=scale))
+                                  '%.2g of scale > 1 %%; the 10-point rule applied to the observable gives %r; point %s' % (
+                                      thn, p.observable, n, code, refs[n], scale, err, own, pt_summary(p)),
+                                  dict(theory=thn, observable=p.observable, FTn=n, point=pt_summary(p), code=code, reference=refs[n], scale=scale,
+                                       ten_point_rule=own))
             # cross-check of the reference itself with scipy's adaptive quad (a few per run)
             if thn == 'th_KM09a' and nq < (3 if quick else 25):
                 nq += 1
@@ -540,7 +572,7 @@ def oracle_B(rep, rng, ncfg, fset=None):
                 err = abs(code - refs[n]) / scale
                 rep.case('oracle-B', (fs, tgt, obs, n, i))
                 stats.append(dict(err=err, obs=obs, n=n, code=code, ref=refs[n], scale=scale, set=fs, target=tgt, kinematics=kw, model=m,
-                                  tQ=-kw['t'] / kw['Q2']))
+                                  tQ=-kw['t'] / kw['Q2'], _th=th, _base=base))
     # report
     by_n = {}
     for s in stats:
@@ -558,6 +590,13 @@ def oracle_B(rep, rng, ncfg, fset=None):
         if s['err'] <= ACC:
             break
         rp = {k: s[k] for k in ('obs', 'n', 'code', 'ref', 'scale', 'set', 'target', 'kinematics', 'model')}
+        # is the value the documented 10-point rule applied to the observable?  Only then is the miss the recorded finding
+        key_, own_ = accuracy_key(s['_th'], s['obs'], s['_base'], s['n'], s['code'], s['scale'], 'random')
+        if not key_.startswith('quadrature-accuracy/'):
+            rep.violation(key_, '%s, target %s: %s harmonic FTn=%d = %r is neither the Fourier coefficient %r nor the 10-point rule applied to '
+                          'the observable (%r); scale %r' % (s['set'], s['target'], s['obs'], s['n'], s['code'], s['ref'], own_, s['scale']),
+                          dict(rp, ten_point_rule=own_))
+            continue
         what = '%s, target %s: %s harmonic FTn=%d = %r but the Fourier integral of the same observable is %r (scale max|obs| = %r): %.3g of scale; ' \
                'xB=%.5g Q2=%.5g t=%.5g %s E=%.5g' % (s['set'], s['target'], s['obs'], s['n'], s['code'], s['ref'], s['scale'], s['err'],
                                                       s['kinematics']['xB'], s['kinematics']['Q2'], s['kinematics']['t'],
